@@ -64,6 +64,12 @@ class _Binary(OpDef):
         out.append({"a": [3], "form": "st", "npscalar": "float64"})
         out.append({"a": [2, 1], "form": "ts", "npscalar": "float64"})
         out.append({"a": [3], "form": "st", "npscalar": "float32"})
+        # a *concrete* Python float that neither float type represents exactly: with a float64 tensor it must act with double
+        # precision (PyTorch: the scalar adopts the tensor's dtype), not be rounded to the default float32 first; with a float32
+        # tensor it acts as its float32 rounding.  (Constants are exact rationals here, so a conversion through float32 shows.)
+        if self.name != "div":      # division multiplies by the reciprocal, which is not exact even in double precision
+            out.append({"a": [2], "form": "ts", "const": 0.1})
+            out.append({"a": [2], "form": "st", "const": 0.1})
         out.append({"a": [3], "form": "ts", "int": [1, -2, 3]})
         out.append({"a": [3], "form": "st", "int": [2, 4, -1]})
         return out
@@ -84,6 +90,8 @@ class _Binary(OpDef):
             return {}
         if "npscalar" in args:
             return {"c": np.dtype(args["npscalar"]).type(0.5)}      # exactly representable, and so is its reciprocal
+        if "const" in args:
+            return {"c": float(args["const"])}
         nz = self.nz_b if args["form"] == "ts" else self.nz_a
         return {"c": env.scalar("c", lo=-3, hi=3, kind="data", nonzero=nz)}
 
@@ -103,6 +111,10 @@ class _Binary(OpDef):
             a, b = xs[0], extra["c"]
         else:
             a, b = extra["c"], xs[0]
+        if "const" in args:
+            # the scalar acts with the precision of the tensor it is combined with
+            c = float(np.dtype(str(xs[0].dtype)).type(args["const"])) if str(xs[0].dtype) in ("float32", "float64") else float(args["const"])
+            a, b = (a, c) if f == "ts" else (c, b)
         sa = a.shape if isinstance(a, np.ndarray) else ()
         sb = b.shape if isinstance(b, np.ndarray) else ()
         osh = bshape(sa, sb)
